@@ -16,6 +16,7 @@ def dispatch (op : String) : Option (List String → String → Res) :=
   | "safeget" => some hSafeGet | "safeget1" => some hSafeGet1 | "ofmany" => some hOfMany
   | "builder" => some hBuilder
   | "nextone" => some hNextOne | "prevone" => some hPrevOne
+  | "tbl" => some hTblIdxToPath
   | "join" => some hJoin | "joinprobe" => some hJoinProbe | "getw" => some hGetw | "slice" => some hSlice
   | "fromstr32" => some hFromStr32
   | "tb" => some hTb
